@@ -28,7 +28,7 @@ def syntax_stages(replay, tier, seed):
         fam_stage("chr", replay, "FamsChrThorough" if big else "FamsChrQuick", ["Emit", "LexSane", "UnspecKnown"]),
         # (c) simulation of long grammar-derived token strings
         fam_stage("sim", replay, "FamsSim", ["Emit", "RoundTripOK", "ErrTokInRange"],
-                  simulate="num=%d" % (4000 if big else 60), depth=26, timeout=240 if big else 90),
+                  simulate="num=%d" % (2000 if big else 30), depth=26, timeout=180 if big else 90),
     ]
 
 
